@@ -533,6 +533,17 @@ func templateNestedProg(plan *Tape) *Prog {
 		top.Outs = append(top.Outs, Field{"bykey", keyed})
 		top.Ret = append(top.Ret, Bind{"bykey", ref("ROW_K", "ys"), false})
 	}
+	if plan.Draw(3) == 0 {
+		// the rows' second argument comes from another producer (which the interrupting
+		// profiles make slow): the inner calls depend on it as much as on MAKE
+		p.Stages = append(p.Stages, &StageDef{Name: "SLOW", SrcKind: "comp", Ins: []Field{{"n", intT}}, Outs: []Field{{"k", intT}}})
+		top.Calls = append([]*CallDef{{Callee: "SLOW", Id: "SLOW", Binds: []Bind{{"n", self("n"), false}}}}, top.Calls...)
+		for _, cl := range top.Calls {
+			if cl.Callee == "ROW" {
+				cl.Binds[1].E = ref("SLOW", "k")
+			}
+		}
+	}
 	p.Pipelines = []*PipelineDef{row, top}
 	p.Top = &CallDef{Callee: "TOPX", Id: "TOPX", Binds: []Bind{{"n", lit(plan.Draw(10000)), false}}}
 	return p
